@@ -91,6 +91,13 @@ void sim_cache_mutate(struct sim *s, int flips)
 	int cap = s->cache.announce_cap < s->u->np ? s->cache.announce_cap : s->u->np;
 
 	cur_sets(s, &p, &k);
+	if (flips == SIM_WIPE_PREFIXES || flips == SIM_WIPE_ALL) {
+		bs_zero(&p);
+		if (flips == SIM_WIPE_ALL)
+			bs_zero(&k);
+		flips = 0;
+		CNT("sim/event/cache_data_wiped");
+	}
 	for (int i = 0; i < flips; i++) {
 		if (s->u->nk && rndp(&s->rng, 1, 5)) {
 			int x = (int)rndn(&s->rng, (uint32_t)s->u->nk);
